@@ -101,11 +101,14 @@ pub struct Elem {
     pub ty: TypeRef,
     pub min: u32,
     pub max: Max,
+    /// print minOccurs/maxOccurs even when they have their default value 1
+    #[serde(default)]
+    pub explicit: bool,
 }
 
 impl Elem {
     pub fn new(name: &str, ty: TypeRef) -> Elem {
-        Elem { name: name.into(), ty, min: 1, max: Max::N(1) }
+        Elem { name: name.into(), ty, min: 1, max: Max::N(1), explicit: false }
     }
     pub fn occ(mut self, min: u32, max: Max) -> Elem {
         self.min = min;
@@ -398,7 +401,8 @@ fn print_particle(o: &mut String, p: &Particle, sc: &Scope, ind: usize) {
     let pad = " ".repeat(ind);
     match p {
         Particle::Elem(e) => {
-            let _ = writeln!(o, "{pad}<xs:element name=\"{}\" type=\"{}\"{}/>", esc(&e.name), sc.tref(&e.ty), occ_attrs(e.min, e.max));
+            let occ = if e.explicit { format!(" minOccurs=\"{}\" maxOccurs=\"{}\"", e.min, e.max.label()) } else { occ_attrs(e.min, e.max) };
+            let _ = writeln!(o, "{pad}<xs:element name=\"{}\" type=\"{}\"{occ}/>", esc(&e.name), sc.tref(&e.ty));
         }
         Particle::Ref(r) => {
             let _ = writeln!(o, "{pad}<xs:element ref=\"{}\"{}/>", sc.qname(&r.target), occ_attrs(r.min, r.max));
